@@ -14,8 +14,13 @@ RULE = ('1500*scale (thorough 20000) seeded histories of 1..30 (thorough 1..60) 
         'delivery (nesting depth 0..3), run on a bare Emitter (2/3) or a hotxlfp.Parser (1/3); callback flavour: plain functions '
         '(1/2), bound methods of host objects fetched anew for every on/once/off (1/4), functools.wraps-decorated versions of '
         'the callback before them (1/4); with probability 0.4 the context is a mapping bound while empty and filled afterwards '
-        '(latectx). 4 fixed histories (re-entrant once, off by callback of a once-listener, off of one of two callbacks, '
-        'subscribe/unsubscribe during delivery) in the five variants plain / bound / wrapped / latectx / rets (in 40% of the seeded histories, and in the `rets` variants, the callbacks RETURN something - True, a label, a count, the emitter itself, a list, 0, None in rotation - which delivery must ignore). Thorough adds every '
+        '(latectx); with probability 0.5 (ownnames) the first four names are the parser\'s own event names callFunction / '
+        'callVariable / callCellValue / callRangeValue instead of n0, n1, ... (on a Parser its constructor has had a chance to '
+        'prepare them; the name delivered to the callbacks as first argument stays the index). 4 fixed histories (re-entrant '
+        'once, off by callback of a once-listener, off of one of two callbacks, '
+        'subscribe/unsubscribe during delivery) in the six variants plain / bound / wrapped / latectx / rets / on a Parser '
+        'under its own event names (in 40% of the seeded histories, and in the `rets` variants, the callbacks RETURN '
+        'something - True, a label, a count, the emitter itself, a list, 0, None in rotation - which delivery must ignore). Thorough adds every '
         'history of length <= 4 with an emit over 16 operations (2 names x 2 callbacks) for three body assignments (length 1: '
         'empty bodies only), depth 2, bare Emitter. Observed: the log of calls (callback, argument, context, name, depth) and, for '
         'the final subscriptions, two probe emits per name with the bodies switched off. Every history is compared with the '
@@ -24,13 +29,17 @@ RULE = ('1500*scale (thorough 20000) seeded histories of 1..30 (thorough 1..60) 
 TRUSTED = ['callbacks are modelled as scripts of emitter operations; callbacks that raise are not modelled',
            'equality (==) of callbacks is modelled by callback ids: plain functions, and bound methods of host objects '
            'fetched anew for every on/once/off (equal, not identical), and functools.wraps-decorated versions of other callbacks; '
-           'flavour, late filling of the context and Emitter/Parser are not part of the model request: the model answer is the same']
+           'flavour, late filling of the context, what the callbacks return, the event names used (n0, n1, ... or the '
+           'parser\'s own) and Emitter/Parser are not part of the model request: the model answer is the same']
 ASSUMPTIONS = ['a once-listener reached first by a nested emit receives that emit (it is called exactly once)',
                'an emit delivers to the subscriptions present when it starts, in subscription order (subscribing / unsubscribing during '
                'delivery takes effect from the next emit; a once-listener that already fired is skipped); off(name, cb) removes every '
                'subscription of cb under that name, once or not',
                'the context (keyword arguments of the call) is the mapping given at subscription itself, not a copy taken then: what the '
-               'host puts into it afterwards is delivered']
+               'host puts into it afterwards is delivered',
+               'what a callback returns (a truth value, a label, a number, the emitter, a list, None) has no effect on the delivery',
+               'on a Parser the event names it uses itself (callFunction, callVariable, callCellValue, callRangeValue) obey the '
+               'same on / once / off / emit semantics as any other name']
 EXHAUSTIVE = {'quick': False, 'thorough': False}
 
 CALL_BUDGET = 3000
